@@ -302,6 +302,11 @@ pub enum Grp {
     T1,
     T2,
     S,
+    /// span 65535 (dense): all elements but the last 32 packed at the start, the last 32 in the final 33 bits (one hole
+    /// 9 bits into that run): the last subblock head sits at offset 65535 - 32
+    T1E,
+    /// span 65535 (dense), all elements but the last packed at the start, the last one alone at offset 65535
+    T1S,
 }
 
 /// Positions of the ones for a sequence of full groups followed by `partial` more ones
@@ -323,10 +328,36 @@ pub fn group_positions(groups: &[Grp], partial: usize, pk: Grp, lead: usize) -> 
             Grp::T1 => 65535.max(c1),          // < 65536: the largest dense span
             Grp::T2 => 65536.max(c1),          // = 65536: the smallest sparse span
             Grp::S => (c1 * 70).max(70_000),   // sparse
+            Grp::T1E | Grp::T1S => 65535.max(c1),
         };
-        for i in 0..count {
-            let off = if count == 1 { 0 } else { (span as u128 * i as u128 / c1 as u128) as usize };
-            pos.push(*cur + off);
+        match kind {
+            Grp::T1E | Grp::T1S if count >= 3 => {
+                let span = 65535usize.max(c1 + 1);
+                // how many elements sit in the run at the end
+                let at_end = if kind == Grp::T1S { 1 } else { 32.min(count - 1) };
+                let at_start = count - at_end;
+                for i in 0..at_start {
+                    pos.push(*cur + i);
+                }
+                // the end run occupies at_end + 1 bits (one hole) when it has more than one element
+                let hole = if at_end > 9 { Some(8usize) } else { None };
+                let width = at_end + hole.is_some() as usize;
+                let mut p = span + 1 - width;
+                for j in 0..at_end {
+                    if hole == Some(j) {
+                        p += 1;
+                    }
+                    pos.push(*cur + p);
+                    p += 1;
+                }
+            }
+            _ => {
+                let span = if matches!(kind, Grp::T1E | Grp::T1S) { 65535usize.max(c1) } else { span };
+                for i in 0..count {
+                    let off = if count == 1 { 0 } else { (span as u128 * i as u128 / c1 as u128) as usize };
+                    pos.push(*cur + off);
+                }
+            }
         }
         *cur = pos.last().unwrap() + 1 + (kind as usize % 3);
     };
@@ -368,6 +399,8 @@ pub enum BitGen {
     Pat { n: usize, pat: BitPat },
     /// ones at explicit positions, length = last+1+tail
     Pos { pos: Vec<usize>, tail: usize },
+    /// k bits equal to `first`, then n-k bits equal to !first: places the m-th one / zero at a chosen distance from the end
+    PrefixRun { n: usize, k: usize, first: bool },
     /// DArray groups
     Groups { groups: Vec<Grp>, partial: usize, pk: Grp, lead: usize, tail: usize, complement: bool },
 }
@@ -419,6 +452,7 @@ impl BitGen {
                     })
                     .collect()
             }
+            BitGen::PrefixRun { n, k, first } => (0..*n).map(|i| (i < *k) == *first).collect(),
             BitGen::Pos { pos, tail } => {
                 let n = pos.last().map_or(0, |l| l + 1) + tail;
                 let mut v = vec![false; n];
@@ -442,6 +476,7 @@ impl BitGen {
         match self {
             BitGen::Tiny { len, .. } => *len as u64,
             BitGen::Pat { n, .. } => *n as u64,
+            BitGen::PrefixRun { n, .. } => *n as u64,
             BitGen::Pos { pos, tail } => (pos.last().copied().unwrap_or(0) + tail) as u64,
             BitGen::Groups { groups, partial, .. } => (groups.len() as u64 * 72000) + *partial as u64 * 70,
         }
